@@ -590,6 +590,10 @@ func installHooks() {
 // runInHelper emits uniquely numbered records on the helper's stdout.
 func (w *world) runInHelper(h *helper) {
 	out := h.cmd.Stdout
+	if own, ok := out.(midicatdrv.VerifOwnedStdout); ok {
+		// a pipe made by StdoutPipe: the end of the process is the end of the stream
+		defer own.Close()
+	}
 	emitted := 0
 	for {
 		sleepSlots(1 + h.cfg.Gap)
